@@ -25,16 +25,24 @@ pub fn fix_fn_param_idents(sig: &mut syn::Signature) {
         return;
     }
 
-    if lift_inner_pat_idents(sig).is_ok() {
-        return;
+    if !lift_inner_pat_idents(sig).is_ok() {
+        autogenerate_for_non_idents(sig);
     }
 
-    autogenerate_for_non_idents(sig);
+    // Every parameter is a plain identifier now; a lifted binding may coincide with the fn name:
+    fix_ident_conflicts(sig);
 }
 
 fn fix_ident_conflicts(sig: &mut syn::Signature) -> ParamStatus {
     let mut status = ParamStatus::Ok;
     let fn_ident_string = sig.ident.to_string();
+    let mut taken_idents = plain_param_idents(sig);
+    // Renaming waits until every parameter is a plain identifier (see fix_fn_param_idents),
+    // so that the new name can avoid all of them:
+    let all_plain = sig.inputs.iter().all(|fn_arg| match fn_arg {
+        syn::FnArg::Receiver(_) => true,
+        syn::FnArg::Typed(pat_type) => matches!(pat_type.pat.as_ref(), syn::Pat::Ident(_)),
+    });
 
     for fn_arg in sig.inputs.iter_mut() {
         let arg_status = match fn_arg {
@@ -47,13 +55,19 @@ fn fix_ident_conflicts(sig: &mut syn::Signature) -> ParamStatus {
                     param_ident.mutability = None;
                     param_ident.subpat = None;
 
-                    if param_ident.ident == fn_ident_string {
+                    if all_plain && param_ident.ident == fn_ident_string {
                         // format_ident! copes with raw identifiers (`r#match` -> `match_`)
-                        param_ident.ident = quote::format_ident!(
+                        let mut new_ident = quote::format_ident!(
                             "{}_",
                             param_ident.ident,
                             span = param_ident.ident.span()
                         );
+                        // the new name must not collide with another parameter
+                        while taken_idents.contains(&new_ident.to_string()) {
+                            new_ident = quote::format_ident!("{}_", new_ident);
+                        }
+                        taken_idents.insert(new_ident.to_string());
+                        param_ident.ident = new_ident;
                     }
 
                     ParamStatus::Ok
@@ -125,9 +139,8 @@ fn lift_inner_pat_idents(sig: &mut syn::Signature) -> ParamStatus {
     status
 }
 
-fn autogenerate_for_non_idents(sig: &mut syn::Signature) {
-    let mut taken_idents: HashSet<String> = sig
-        .inputs
+fn plain_param_idents(sig: &syn::Signature) -> HashSet<String> {
+    sig.inputs
         .iter()
         .filter_map(|fn_arg| match fn_arg {
             syn::FnArg::Receiver(_) => None,
@@ -136,7 +149,13 @@ fn autogenerate_for_non_idents(sig: &mut syn::Signature) {
                 _ => None,
             },
         })
-        .collect();
+        .collect()
+}
+
+fn autogenerate_for_non_idents(sig: &mut syn::Signature) {
+    let mut taken_idents = plain_param_idents(sig);
+    // a generated name must not shadow the fn that is going to be called
+    taken_idents.insert(sig.ident.to_string());
 
     fn generate_ident(index: usize, attempts: usize, taken_idents: &mut HashSet<String>) -> String {
         let ident = format!(
